@@ -55,6 +55,19 @@ def generate(tier, seed):
             dist["random_len_by_20"][b] = dist["random_len_by_20"].get(b, 0) + 1
             cases.append(build_case(sp, ad, pre, ops, dom, views_every=(n <= 10)))
             dist["random"] += 1
+    # batch corners on adapters that let every batch through to the model (Null, File; Memory with auto-save off): a refused
+    # batch must not reorder the store, an accepted one keeps an in-batch duplicate at its first position
+    dist["batch_corners"] = 0
+    for dom in (False, True):
+        d = prio_dom_kind() if dom else prio_kind()
+        sp = spec_of(d)
+        for rep in range(3 if tier == "quick" else 20):
+            st = initial_lines(rnd, dom, True, maxp=5)
+            for ad, pre in (("N", []), (adapter_F([l[1:] for l in st]), []), (adapter_M(st), ["ES:0"])):
+                seed_ops = [A("p", "p", r) for r in p_rules(dom)[:4]] if ad == "N" else []
+                for o in batch_corner_ops(dom):
+                    cases.append(build_case(sp, ad, pre, seed_ops + [o], dom, views_every=True))
+                    dist["batch_corners"] += 1
     # two policy types per section (p/p2, g/g2) sharing names across the sibling types
     sp = multi_spec()
     al = multi_alphabet()
